@@ -331,6 +331,48 @@ theorem translated_revoke (σ : Env) :
   by_cases h3 : σ "k.recoveryConsumer.RefreshAssignments#0" = 0 <;>
   minigo_simp [Trans.kcRevoke, h1, h2, h3]
 
+
+/-- what one iteration of partitionAssignmentsChanged reads for candidate `(p, c)`: whether `p` is in the active map, and the
+two `to` offsets -/
+def bindCand (σ : Env) (act : AList Active) (p : Int) (c : Active) : Env :=
+  upd (upd (upd σ "lookup rc.activePartitionMap#1" (if (act.get? p).isSome then 1 else 0))
+    "candidate.toOffset" c.toO) "activePartitionRecoveryState.toOffset" (((act.get? p).map (·.toO)).getD 0)
+
+/-- `for _, candidate := range candidates { body }` with a body that may `return true`: the first iteration that returns
+decides; if none does the loop falls through (`false`) -/
+def rangeChanged (body : S) (act : AList Active) : List (Int × Active) → Env → Bool
+  | [], _ => false
+  | (p, c) :: rest, σ =>
+    let r := run body (bindCand σ act p c)
+    if r.ret.isSome then true else rangeChanged body act rest r.env
+
+theorem changedBody_ret (σ : Env) :
+    (run Trans.changedBody σ).ret =
+      if σ "lookup rc.activePartitionMap#1" = 0 ∨ σ "candidate.toOffset" ≠ σ "activePartitionRecoveryState.toOffset"
+      then some [1] else none := by
+  by_cases h1 : σ "lookup rc.activePartitionMap#1" = 0 <;>
+  by_cases h2 : σ "candidate.toOffset" = σ "activePartitionRecoveryState.toOffset" <;>
+  minigo_simp [Trans.changedBody, h1, h2]
+
+/-- **the loop of partitionAssignmentsChanged = the `any` of the model's `changed`**: some candidate is not in the active map
+or is there with another `to` -/
+theorem translated_changed_loop (act : AList Active) (cands : List (Int × Active)) : ∀ σ : Env,
+    rangeChanged Trans.changedBody act cands σ =
+      cands.any (fun c => match act.get? c.1 with
+        | none => true
+        | some a => c.2.toO ≠ a.toO) := by
+  induction cands with
+  | nil => intro σ; rfl
+  | cons x rest ih =>
+    obtain ⟨p, c⟩ := x
+    intro σ
+    simp only [rangeChanged, List.any_cons]
+    rw [changedBody_ret, ih]
+    cases h : act.get? p with
+    | none => simp [bindCand, h]
+    | some a =>
+      by_cases e : c.toO = a.toO <;> simp [bindCand, h, e]
+
 end Translated
 
 theorem closure_unchanged : GeneratedClo.C09 = ExpectedClo.C09 := by rfl
